@@ -209,10 +209,12 @@ def run(ck, model_ok):
                 tw = {'absent': 'absent', 'file': ['file', PRIOR], 'dir': 'dir', 'noperm': 'noperm-absent', 'noperm-absent': 'noperm-absent'}.get(target)
                 # symlinks and sockets at the target are outside the file-system model: oracle only
                 i1 = m.add(['meta.write', 'none', ow, v, w, tw]) if tw is not None else None
-                i2 = m.add(['meta.write_stream', 'none', v, w, True, PRIOR, False])
-                i3 = m.add(['meta.write_stream', 'none', v, w, False, PRIOR, False])
-                i4 = m.add(['meta.write_stream', 'none', v, w, False, PRIOR, True])
-                pend.append((case, res, after, sres, (i1, i2, i3, i4)))
+                # stream state in the model: seekable?, prior content, position, does write() fail?
+                i2 = m.add(['meta.write_stream', 'none', v, w, True, PRIOR, 3, False])
+                i3 = m.add(['meta.write_stream', 'none', v, w, False, PRIOR, len(PRIOR), False])
+                i4 = m.add(['meta.write_stream', 'none', v, w, False, PRIOR, len(PRIOR), True])
+                i5 = m.add(['meta.write_stream', 'none', v, w, True, PRIOR, 0, False])
+                pend.append((case, res, after, sres, (i1, i2, i3, i4, i5)))
             if ci < 3:
                 ck.sample(dict(case, md=case['md'][:200], result=repr(res)))
         if model_ok:
@@ -227,7 +229,7 @@ def run(ck, model_ok):
                     unm = mres == ('err', ('IOther',))
                     if not unm and (mres != (res[0], res[1][:1] if res[0] == 'err' else None) or mafter != after):
                         ck.fail('tie', 'write', case, repr((mres, mafter))[:300], repr((res, after))[:300], 'model and implementation disagree')
-                for kind, idx in (('bytesio', ids[1]), ('bytesio-long-at-0', ids[1]), ('nonseekable', ids[2]), ('nonseekable-fail', ids[3])):
+                for kind, idx in (('bytesio', ids[1]), ('bytesio-long-at-0', ids[4]), ('nonseekable', ids[2]), ('nonseekable-fail', ids[3])):
                     ms = out[idx]
                     msres = sl.model_res(ms[0], lambda v: None)
                     mcontent = atom_bytes(ms[1])
